@@ -1,6 +1,6 @@
 #!/bin/sh
 # tools/soak.sh [ids...] - thorough tier of every (or the given) property, one after the other; one summary line each
-cd /verif || exit 2
+cd "$(dirname "$0")/.." || exit 2
 IDS="$*"
 [ -z "$IDS" ] && IDS=$(ls props/c[0-9][0-9].py | sed 's/.*c\([0-9][0-9]\).py/C\1/')
 RC=0
